@@ -41,6 +41,8 @@ macro_rules! dispatch {
             "C15" => $f(&props::c15::C15, $($arg),*),
             "C08" => $f(&props::c08::C08, $($arg),*),
             "C07" => $f(&props::c07::C07, $($arg),*),
+            "C19" => $f(&props::c19::C19, $($arg),*),
+            "C20" => $f(&props::c20::C20, $($arg),*),
             _ => {
                 eprintln!("unknown property {}", $id);
                 2
